@@ -290,9 +290,9 @@ def _model_point(m, names):
     return {n: exact._num(m.eval(exact.zv(n), model_completion=True)) for n in names}
 
 
-def compare(case, terms):
+def compare(case, terms, names=None):
     """None or a description of a point where parsed terms and written relation disagree."""
-    names = VARS
+    names = names or VARS
     tol = F(0) if case["cls"] == "dyadic" else F(1, 10000)
     box = None if case["cls"] == "dyadic" else exact.BOX
     P = exact.to_z3(exact.conj(terms))
@@ -362,7 +362,54 @@ def has_abs(items):
     return any(it["k"] == "abs" or (it["k"] in ("grp", "pgrp") and has_abs(it["in"])) for it in items)
 
 
+def judge_string(s):
+    """Oracle for an arbitrary string (fuzzing / saved inputs): exception contract, repeatability, and - when the
+    independent reference reader can read it too - equivalence with the written relation.  -> (viol|None, label)"""
+    import math
+
+    from pv import refparse
+    parse = env.serializer.polyhedral_termlist_from_string
+    try:
+        ts = parse(s)
+        ts2 = parse(s)
+    except env.PolyhedralSyntaxConvexException:
+        tree = refparse.read(s)
+        if tree is not None and tree["rel"] in ("<=", ">="):
+            w = abs_weights(tree)
+            if all(v > 0 for net in w for v in net.values()) and refparse.max_number(tree) < 1e6:
+                return {"what": "%r rejected as non-convex although every absolute term has positive net weight on the smaller side" % s,
+                        "sig": {"kind": "spurious-convexity-error"}, "detail": {"string": s}}, "convex"
+        return None, "convex"
+    except env.PolyhedralSyntaxException:
+        return None, "syntax"
+    except ValueError:
+        return None, "valueerror"
+    except Exception as e:  # noqa: B902
+        raise env.Undocumented(e, "polyhedral_termlist_from_string(%r)" % s) from e
+    d1, d2 = env.tl_data(env.PolyhedralTermList(ts)), env.tl_data(env.PolyhedralTermList(ts2))
+    if d1 != d2:
+        return {"what": "parsing %r twice gave different results" % s, "sig": {"kind": "parse-not-repeatable"}, "detail": {"string": s}}, "ok"
+    tree = refparse.read(s)
+    if tree is None:
+        return None, "ok-ref-unreadable"
+    nums = [abs(v) for t in d1 for v in list(t[0].values()) + [t[1]]]
+    if refparse.max_number(tree) > 1e6 or any((not math.isfinite(v)) or v > 1e9 for v in nums):
+        return None, "ok-out-of-range"
+    names = sorted(set(refparse.variables(tree)) | {n for t in d1 for n in t[0]})
+    if len(names) > 6:
+        return None, "ok-too-many-variables"
+    d = compare({"cls": "decimal", "rel": tree["rel"], "sides": tree["sides"]}, d1, names)
+    if d:
+        return {"what": "parsed %r as %s, which differs from the written relation (%s)" % (s, d1, d["direction"]),
+                "sig": {"kind": "parse-meaning", "abs": any(has_abs(x) for x in tree["sides"]), "rel": tree["rel"]},
+                "detail": dict(d, string=s, parsed=d1)}, "ok"
+    return None, "ok-equivalent"
+
+
 def run_case(case):
+    if "string" in case:
+        viol, label = judge_string(case["string"])
+        return {"viol": viol, "nontrivial": label == "ok-equivalent", "labels": ["raw-string", "outcome:" + label], "outcome": label, "note": case["string"]}
     labels = ["rel:" + case["rel"], "num:" + case["cls"]]
     any_abs = any(has_abs(s) for s in case["sides"])
     labels.append("abs:%s" % any_abs)
